@@ -45,8 +45,9 @@ older layout replay unchanged):
             cell index exceeds the range of the small index dtypes), shape given as a list.
  edges      the corners of the quantifier: 200 rows in one cell, a single row in cell (7, 9), 200 rows of one
             example (19900 pairs) for pairwise_annotations and pairwise_annotations_spacing.
- coords     pairwise_annotations_spacing on tables translated by genomic offsets (1e6, 3e9 with int64 input); the
-            gaps and hence the expected tensor are those of the untranslated table.
+ coords     pairwise_annotations_spacing on tables translated by genomic offsets (1e6, 248956422, 3e9) and onto the
+            boundaries 2^15, 2^16, 2^31, 2^32 (some spans below, some above; int64 input where needed); the gaps and hence
+            the expected tensor are those of the untranslated table.
  triples    (quick tier too) every three-row table over spans with starts 0-3, lengths 1-2 in every listing order,
             so that two pairs of one anchor row fall into one cell in each order.
  kmers      one-hot input as a permuted (batch, length, letters) view and as every second position of a longer
@@ -75,7 +76,7 @@ SCOPE = {
              'max_distance 1-5 (all relative positions: abutting, overlapping, nested, coincident, gap == max_distance, farther), '
              'every 3-row table over spans with starts 0-3, lengths 1-2 (all listing orders), max_distance 1-3, '
              '4 x 400 random tables (classes: disjoint without gap == max_distance / with overlaps / with gap == max_distance / free; '
-             '1-200 rows, pair count <= 3000; a fifth of them translated by 1e6 or 3e9), one 200-row single-example table, '
+             '1-200 rows, pair count <= 3000; a fifth of them translated by 1e6, 248956422, 3e9 or onto a 2^15 / 2^16 / 2^31 / 2^32 boundary), 200-row tables, '
              'tensor (contiguous / strided) / DataFrame (named or anonymous columns, non-default index) / tuple and list forms '
              '(annotation vector 1-D or (n, 1) int32), max_distance 1-60 or omitted (= 100), default call without keywords; '
              'kmers: every sequence of length k..6 over 4 letters '
@@ -708,9 +709,12 @@ def _run_spacing(rep, lim):
                 idt = 'int32'
             if rng.random() < 0.2:
                 # genomic coordinates: the whole table translated; gaps unchanged
-                off = rng.choice([10 ** 6, 10 ** 6 + 1, 248956422, 3 * 10 ** 9])
+                # (a narrower integer type wraps consistently, so a fixed offset alone would leave the gaps intact: half of the
+                # offsets put the table across a power-of-two boundary; 248956422 > 2 ** 24 is not exact in float32)
+                mid = sorted(r[2] for r in rows)[len(rows) // 2]
+                off = rng.choice([10 ** 6, 248956422, 3 * 10 ** 9] + [max(2 ** b - mid, 0) for b in (15, 16, 31, 32)])
                 rows = [[r[0], r[1], r[2] + off, r[3] + off] for r in rows]
-                idt = 'int64' if off > 2 ** 31 - 10 ** 4 else rng.choice(['int64', 'int32'])
+                idt = 'int64' if max(r[3] for r in rows) > 2 ** 31 - 1 else rng.choice(['int64', 'int32'])
             case = {'kind': 'spacing', 'rows': rows, 'form': SPACING_FORMS[k % len(SPACING_FORMS)], 'idtype': idt,
                     'dtype': None if omit else _pick_dtype(rng, U), 'max_distance': None if omit else md,
                     'symmetric': None if omit else rng.random() < 0.75, 'shape': shape, 'omit': omit}
@@ -884,11 +888,9 @@ def _run_kmers(rep, lim):
     for j in range(60 if thorough else 12):
         if rep.out_of_time():
             return
-        L = [40000, 5000, 5000][j % 3]
-        mode = ['homo', 'near', 'random', 'near'][j % 4]
-        n = [4, 4, 2, 5][(j // 2) % 4]
+        mode, L, sc = list(itertools.product(['homo', 'near', 'random'], [40000, 5000], [False, True]))[j % 12]
+        n = [4, 2, 5, 4, 3][j % 5]
         k = 1 + (j * 7 // 3) % 4
-        sc = j % 2 == 1
         case = {'kind': 'kmers', 'n': n, 'k': k, 'long': {'seed': rep.seed * 1000 + j, 'L': L, 'B': 1 + j % 2, 'mode': mode},
                 'xdtype': XDT[j % len(XDT)], 'xlayout': XLAYOUT[j % 4], 'score_seed': rep.seed * 1000 + j if sc else None, 'smag': 20,
                 'sdtype': SDT[j % len(SDT)], 'sstrided': j % 3 == 0}
